@@ -248,6 +248,8 @@ def contains(container, item):
             return z3.BoolVal(False)
         it = coerce(item, t.elem)
         return z3.Contains(container.e, z3.Unit(it.e))
+    if isinstance(t, (ty.Set, ty.Map)) and container.e is None:
+        return z3.BoolVal(False)
     if isinstance(t, ty.Set):
         return z3.Select(container.e, coerce(item, t.key).e)
     if isinstance(t, ty.Map):
